@@ -53,7 +53,14 @@ TDeliver == /\ IsEv("deliver") /\ log # <<>>
                /\ dirty' = [q \in Queries |-> dirty[q] \/ (q \in Active /\ cur[q] /\ Affected(ev, q))]
             /\ log' = Tail(log)
             /\ UNCHANGED <<filt, table, pc, ndep, cur, held, nw, nbad>>
-TBegin == IsEv("begin") /\ Begin(E.q)
+\* a run may also begin although nothing the model sees invalidated the query (reactive re-runs a computation
+\* that was invalidated while it was still running, and the release of a superseded dependency invalidates it
+\* once more): an extra run is harmless for C07, a missing one shows in the reads and at quiescence
+TBegin == /\ IsEv("begin")
+          /\ \/ Begin(E.q)
+             \/ /\ E.q \in Active /\ pc[E.q] \in {"idle", "held"} /\ ~dirty[E.q]
+                /\ pc' = [pc EXCEPT ![E.q] = "begun"] /\ cur' = [cur EXCEPT ![E.q] = FALSE]
+                /\ UNCHANGED <<filt, table, log, ndep, held, dirty, nw, nbad>>
 TUnregister == IsEv("unregister") /\ Unregister(E.q)
 TRegister == IsEv("register") /\ Register(E.q)
 TRead == IsEv("read") /\ Read(E.q) /\ held'[E.q] = Rng(E.got)
